@@ -10,6 +10,12 @@ TRUST = ("Trusted base: the Go type checker and go/ssa (x/tools v0.29.0) as a fa
 
 # id -> (technique, level text, level_note, design_ref)
 CLAIMED = {
+    "C07": (
+        "bounds obligations discharged by the Go compiler's prove pass (-d=ssa/check_bce) plus named residue rules; decoded return/condition tables over SSA expressions; exact rune-set evaluation of character classes by path enumeration with interval constraints",
+        "Decides the structure that determines the accepted language of qualified names: composition/splitting separators and first-occurrence splitting, non-empty halves, the error contract of ParseQualifiedName/IsQualifiedName, "
+        "the exact sets of runes accepted by IsLetter/IsDigit/IsAlphaNumeric and by the middle-section loops (computed, not sampled), the positional structure (first, single, middle, last), and that no index or slice expression of the parser can be out of range for any input.",
+        TRUST + "strings.SplitN semantics assumed. The round-trip equation itself is implied by the decided structure for well-formed parts, not separately evaluated over strings.",
+        "DESIGN.md §4 C07"),
     "C06": (
         "feature table read from 'Added in vX.Y.Z' field comments + type-structure placement enumeration + access-path reads of each version predicate (element flow through append/range) + loop-variable escape analysis per module Go version",
         "Decides that every version-gated field is read by the predicate of its version at every placement the type structure allows (spec level and every device), in complete loops without early verdicts; "
